@@ -6,7 +6,7 @@ import mutagen
 from common import zs, hx, unhx, VERIF
 from fam import kinds as KM, shared
 from fam.kinds import KINDS
-from fam.fileobjs import Minimal
+from fam.fileobjs import Minimal, ReadOnlyMinimal
 from props.c19 import add_value
 
 PROP = "C17"
@@ -112,6 +112,50 @@ def history(kind, way, data, tmpdir, base, asked):
             fobj.close()
 
 
+def load_outcome(kind, f, **kw):
+    try:
+        o = kind.cls(f, **kw) if not kw else kind.cls(**kw)
+        return ("ok", KM.canon_mem(kind, o), KM.info_of(o))
+    except mutagen.MutagenError as e:
+        return ("MutagenError",)
+    except Exception as e:
+        return ("EXC:" + type(e).__name__, str(e)[:80])
+
+
+def load_only(ctx, kind, sample, data):
+    """loading needs read/seek/tell only: an object with nothing else loads to the same tags and stream info,
+    positionally, by keyword and through mutagen.File"""
+    ref = load_outcome(kind, io.BytesIO(data))
+    for neg in ("clamp", "raise"):
+        for how in ("pos", "kw", "File"):
+            f = ReadOnlyMinimal(data, neg)
+            if how == "pos":
+                r = load_outcome(kind, f)
+            elif how == "kw":
+                r = load_outcome(kind, None, fileobj=f)
+            else:
+                if kind.is_tagclass:
+                    continue
+                try:
+                    o = mutagen.File(f)
+                    r = ("ok", KM.canon_mem(kind, o), KM.info_of(o)) if type(o) is kind.cls else ref
+                except mutagen.MutagenError:
+                    r = ref if ref[0] != "ok" else ("MutagenError",)
+                except Exception as e:
+                    r = ("EXC:" + type(e).__name__, str(e)[:80])
+            ctx.oracle_cases += 1
+            ctx.count("load-only:" + how)
+            ctx.case((kind.name, sample, "load-only", neg, how))
+            d = {"runner": "c17.ways", "kind": kind.name, "sample": sample, "way": "load-only-%s-%s" % (neg, how)}
+            if r != ref:
+                ctx.violation("oracle", "C17 %s: loading through an object with only read/seek/tell differs from the in-memory stream (%s)" % (kind.name, how),
+                              dict(d, got=repr(r)[:200], ref=repr(ref)[:200]))
+            # probing for the (documented) writing methods with hasattr is not needing them
+            extra = f.asked - ALLOWED_ATTRS - {"write", "flush", "truncate"}
+            if extra:
+                ctx.violation("oracle", "C17 %s: loading requested attributes beyond read/seek/tell/name: %s" % (kind.name, sorted(extra)), d)
+
+
 def format_oracle(ctx, kinds=None, max_size=200000):
     tmp = tempfile.mkdtemp(dir=os.path.join(VERIF, ".run"), prefix="c17_")
     asked = set()
@@ -137,6 +181,7 @@ def format_oracle(ctx, kinds=None, max_size=200000):
                     if res[way][0] == "ok" and res[way][3]:
                         ctx.violation("oracle", "C17 %s: caller-supplied file object closed (%s)" % (kname, way), d)
                     asked |= a
+                load_only(ctx, kind, sample, data)
                 ref = res["bytesio"]
                 for way, r in res.items():
                     if way == "bytesio":
